@@ -730,10 +730,26 @@ fn op_json(path: &[Op]) -> Value {
 pub fn explore(rep: &mut Report, max_live: usize, max_id: usize, depth_cap: usize, state_cap: usize, data_layer: usize, data2_max_live: usize) {
     let t0 = Instant::now();
     let init = State { v: VecG::new(), h: HashG::new(), m: RefGraph::default(), lv: BTreeMap::new(), lh: BTreeMap::new(), next_l: 0 };
-    let mut seen: BTreeSet<String> = BTreeSet::new();
-    seen.insert(state_key(&init));
+    // the set of visited states: 128-bit hashes of the canonical key, sharded so that successors are de-duplicated inside
+    // the parallel phase (materialising every successor before the merge needed > 60 GB at depth 7 of the thorough tier)
+    fn h128(k: &str) -> u128 {
+        use std::hash::{Hash, Hasher};
+        let mut a = std::collections::hash_map::DefaultHasher::new();
+        k.hash(&mut a);
+        let mut b = std::collections::hash_map::DefaultHasher::new();
+        (k, 0x9E37u16).hash(&mut b);
+        ((a.finish() as u128) << 64) | b.finish() as u128
+    }
+    const SHARDS: usize = 256;
+    let seen: Vec<std::sync::Mutex<std::collections::HashSet<u128>>> = (0..SHARDS).map(|_| std::sync::Mutex::new(std::collections::HashSet::new())).collect();
+    let nseen = std::sync::atomic::AtomicUsize::new(1);
+    let cap_hit = std::sync::atomic::AtomicBool::new(false);
+    {
+        let h = h128(&state_key(&init));
+        seen[(h % SHARDS as u128) as usize].lock().unwrap().insert(h);
+    }
     let mut frontier: Vec<(State, Vec<Op>)> = vec![(init, vec![])];
-    type Succ = (State, Vec<Op>, String);
+    type Succ = (State, Vec<Op>);
     let mut total = Stats::default();
     total.inc("states");
     let mut depth = 0;
@@ -755,6 +771,18 @@ pub fn explore(rep: &mut Report, max_live: usize, max_id: usize, depth_cap: usiz
                 if let Some((sig, detail)) = clone_and_derived(s) {
                     st.violation(Violation { sig, detail, witness: json!({"kind": "history", "ops": op_json(path)}) });
                 }
+                let mut offer = |n: State, p2: Vec<Op>, st: &mut Stats| {
+                    let h = h128(&state_key(&n));
+                    if nseen.load(std::sync::atomic::Ordering::Relaxed) >= state_cap {
+                        cap_hit.store(true, std::sync::atomic::Ordering::Relaxed);
+                        return;
+                    }
+                    if seen[(h % SHARDS as u128) as usize].lock().unwrap().insert(h) {
+                        nseen.fetch_add(1, std::sync::atomic::Ordering::Relaxed);
+                        st.inc("states");
+                        succ.push((n, p2));
+                    }
+                };
                 for op in structural_ops(s, max_live, max_id) {
                     st.inc("transitions");
                     st.inc("evaluations");
@@ -763,14 +791,12 @@ pub fn explore(rep: &mut Report, max_live: usize, max_id: usize, depth_cap: usiz
                     match step(s, &op) {
                         Outcome::Next(n) => {
                             st.inc("nontrivial");
-                            let k = state_key(&n);
-                            succ.push((*n, p2, k));
+                            offer(*n, p2, &mut st);
                         }
                         Outcome::BothRefused => st.inc("refused_in_both"),
                         Outcome::RefusedUnchanged(n) => {
                             st.inc("refused_in_both");
-                            let k = state_key(&n);
-                            succ.push((*n, p2, k));
+                            offer(*n, p2, &mut st);
                         }
                         Outcome::Violation(sig, detail) => st.violation(Violation { sig, detail, witness: json!({"kind": "history", "ops": op_json(&p2)}) }),
                     }
@@ -821,22 +847,16 @@ pub fn explore(rep: &mut Report, max_live: usize, max_id: usize, depth_cap: usiz
         let mut next = vec![];
         for (st, succ) in results {
             total = total.merge(st);
-            for (n, p, k) in succ {
-                if seen.len() >= state_cap {
-                    capped = Some(format!("state cap {} reached at depth {}", state_cap, depth + 1));
-                    continue;
-                }
-                if seen.insert(k) {
-                    total.inc("states");
-                    next.push((n, p));
-                }
-            }
+            next.extend(succ);
+        }
+        if cap_hit.load(std::sync::atomic::Ordering::Relaxed) {
+            capped = Some(format!("state cap {} reached at depth {}", state_cap, depth + 1));
         }
         depth += 1;
         if !next.is_empty() {
             max_depth_reached = depth;
         }
-        eprintln!("[C09] depth {} : {} new states (total {})", depth, next.len(), seen.len());
+        eprintln!("[C09] depth {} : {} new states (total {})", depth, next.len(), nseen.load(std::sync::atomic::Ordering::Relaxed));
         if let Some((_, p)) = next.first() {
             total.sample(4, || op_json(p));
         }
